@@ -333,6 +333,7 @@ func c12Handoff(c *Ctx, la *lockAnalysis) {
 func c12Guarded(c *Ctx, la *lockAnalysis) {
 	guardedBy2(c, la, "R4-guarded-by", guardedFields, guardExceptions, 40)
 	c12IndexValidity(c, guardedFields)
+	c01PosCacheAtomic(c, "R8-position-cache-atomic")
 }
 
 func guardedBy2(c *Ctx, la *lockAnalysis, rule string, guardedFields map[string]guardSpec, guardExceptions map[string]string, floor int) {
@@ -589,10 +590,37 @@ func c12IndexValidity(c *Ctx, guardedFields map[string]guardSpec) {
 				}
 				var defs []ssa.Instruction
 				for _, o := range origins(idx) {
-					if d, ok := o.(ssa.Instruction); ok && d.Parent() == fn {
+					d, ok := o.(ssa.Instruction)
+					if !ok {
+						continue
+					}
+					if d.Parent() == fn {
 						defs = append(defs, d)
+					} else if at := liftTo(fn, d); at != nil {
+						// computed by an extracted scan helper: its call is the computation
+						defs = append(defs, at)
 					}
 				}
+				// ... a helper with several call sites: the call that produced this index
+				var viaCall func(v ssa.Value, d int)
+				viaCall = func(v ssa.Value, d int) {
+					if v == nil || d > 3 {
+						return
+					}
+					switch x := v.(type) {
+					case *ssa.Call:
+						if x.Parent() == fn && isNewHelper(x.Call.StaticCallee()) {
+							defs = append(defs, x)
+						}
+					case *ssa.Phi:
+						for _, e := range x.Edges {
+							viaCall(e, d+1)
+						}
+					case *ssa.Extract:
+						viaCall(x.Tuple, d+1)
+					}
+				}
+				viaCall(idx, 0)
 				if len(defs) == 0 {
 					continue // constant index or a parameter: nothing was computed under the lock here
 				}
@@ -797,6 +825,50 @@ func c12Register(c *Ctx, la *lockAnalysis) {
 		r := reachable(fn, e.From.Succs[e.Succ], nil)
 		c.check(!r[appendSt.Block()], rule, fnName(fn)+": finding an equal path in the second scan never leads to the append", c.pos(lastInstr(e.From)), "append unreachable from the equal edge", "a duplicate can still be appended")
 	}
+	// the scan extracted into a helper that returns the index of the equal path (or -1) or
+	// a found flag: the edge on which the helper reports "found" plays the same role
+	eq := cmpFact(vCall("(*ls.DB).Path", nil), token.EQL, vCall("(*ls.DB).Path", nil), "")
+	for _, b := range fn.Blocks {
+		ifi, isIf := lastInstr(b).(*ssa.If)
+		if !isIf || !dominates(lock, ifi) {
+			continue
+		}
+		for succ := 0; succ < 2; succ++ {
+			f := edgeFact(ifi, succ)
+			found := false
+			if f.Op == token.ILLEGAL {
+				if call, ok := f.L.(*ssa.Call); ok && f.Truth {
+					if h := call.Call.StaticCallee(); isNewHelper(h) && len(factEdges(h, eq)) > 0 && calleeEstablishes(h, false, true, []FP{eq}, 0) {
+						found = true
+					}
+				}
+			} else if call, ok := f.L.(*ssa.Call); ok {
+				if h := call.Call.StaticCallee(); isNewHelper(h) && len(factEdges(h, eq)) > 0 {
+					if k, isK := constInt(f.R); isK {
+						switch {
+						case f.Op == token.GEQ && k == 0, f.Op == token.GTR && k == -1, f.Op == token.NEQ && k == -1:
+							// every non-negative return of the helper is reached under the equal fact
+							found = true
+							for _, r := range returns(h) {
+								if kv, isC := constInt(retOperand(r, 0)); isC && kv < 0 {
+									continue
+								}
+								if g, n := guardedBy(r, eq); !(n > 0 && g) {
+									found = false
+								}
+							}
+						}
+					}
+				}
+			}
+			if !found {
+				continue
+			}
+			nEq++
+			r := reachable(fn, b.Succs[succ], nil)
+			c.check(!r[appendSt.Block()], rule, fnName(fn)+": finding an equal path in the second scan never leads to the append", c.pos(ifi), "append unreachable from the found edge", "a duplicate can still be appended")
+		}
+	}
 	c.floor(rule, nEq, 1, "equal-path branch inside the append's critical section")
 	// ... and the scan covers the whole list: the compared elements are indexed out of
 	// s.dbs itself, not out of a sub-slice (entries can move down when another database
@@ -911,4 +983,50 @@ func pairingLeaks(c *Ctx, la *lockAnalysis, fn *ssa.Function) (leaks []string, d
 	// restore interprocedural state for fn
 	la.analyse(fn, la.entry[fn], false)
 	return leaks, direct, allowed
+}
+
+// releaseBetween reports whether a (non-deferred) release of lock class cls lies on a path
+// from instruction d to instruction use in fn that does not pass d's block again.
+func releaseBetween(fn *ssa.Function, d, use ssa.Instruction, cls string) bool {
+	after := func(a, b ssa.Instruction, avoid *ssa.BasicBlock) bool {
+		if a.Block() == b.Block() && instrIndex(a) < instrIndex(b) {
+			return true
+		}
+		seen := map[*ssa.BasicBlock]bool{}
+		var walk func(bb *ssa.BasicBlock) bool
+		walk = func(bb *ssa.BasicBlock) bool {
+			if bb == b.Block() {
+				return true
+			}
+			if seen[bb] || (avoid != nil && bb == avoid && avoid != a.Block() && avoid != b.Block()) {
+				return false
+			}
+			seen[bb] = true
+			for _, s := range bb.Succs {
+				if walk(s) {
+					return true
+				}
+			}
+			return false
+		}
+		for _, s := range a.Block().Succs {
+			if walk(s) {
+				return true
+			}
+		}
+		return false
+	}
+	for _, call := range calls(fn) {
+		if _, deferred := call.(*ssa.Defer); deferred {
+			continue
+		}
+		op, ok := classifyLockCall(call)
+		if !ok || (op.Kind != "unlock" && op.Kind != "release" && op.Kind != "runlock") || op.Class != cls {
+			continue
+		}
+		if after(d, call, nil) && after(call, use, d.Block()) {
+			return true
+		}
+	}
+	return false
 }
